@@ -113,6 +113,12 @@ Stmts ==
   \cup {St("Select", "into_default", "-", "-", {R(DFL), W(DFL)})}
   \cup {St("Select", "into", a, b, {R(a), W(b)}) : a \in Db, b \in Db}
   \cup {St("Select", "into_mixed", a, "-", {R(DFL), W(a)}) : a \in Db}
+  \* one statement that MIXES explicit and default databases, in both orders: every privilege is needed on the
+  \* database that part of the statement really reads / writes (an unqualified measurement = the default database)
+  \cup {St("Select", f, a, "-", {R(a), R(DFL)}) : f \in {"from_mixed", "from_mixed_rev", "subq_mixed", "subq_mixed_rev", "subq_inner_dfl"}, a \in Db}
+  \cup {St("Select", "into_dfl_from", a, "-", {R(a), W(DFL)}) : a \in Db}
+  \cup {St("Select", "into_from_mixed", a, b, {R(a), R(DFL), W(b)}) : a \in Db, b \in Db}
+  \cup {St("Explain", f, a, "-", {R(a), R(DFL)}) : f \in {"from_mixed", "from_mixed_rev"}, a \in Db}
   \cup {St(c, "default", "-", "-", {W(DFL)}) : c \in {"DeleteSeries", "DropSeries", "Delete"}}
   \cup {St("DeleteSeries", "where", "-", "-", {W(DFL)})}
   \cup {St(c, "on", a, "-", {W(a)}) : c \in {"DropContinuousQuery", "DropRetentionPolicy"}, a \in Db}
